@@ -75,7 +75,8 @@ NoView == [k |-> 0, n |-> 0, sec |-> FALSE, crown |-> FALSE, exp |-> FALSE, del 
 NoSub == [used |-> FALSE, active |-> FALSE, lazy |-> FALSE, p |-> 1, c |-> 1, loc |-> FALSE, int |-> FALSE, acc |-> <<>>]
 NoHook == [used |-> FALSE, active |-> FALSE, p |-> 1, c |-> 1, ph |-> <<>>, beh |-> "pass"]
 InitState == [store |-> [k \in Keys |-> Absent], subs |-> [s \in Slots |-> NoSub],
-              hooks |-> [h \in HSlots |-> NoHook], horder |-> <<>>]
+              hooks |-> [h \in HSlots |-> NoHook], horder |-> <<>>,
+              pend |-> <<>>]       \* writes accepted by interfaces with a delayed write cache, not flushed yet
 
 \* one call.  via: "if" (database.Interface) | "api" (DatabaseAPI message; acts as interface 1) | "db" (the
 \* injected database itself pushes an update).  q = index of the query OBJECT used (two subscriptions or hooks
@@ -172,6 +173,14 @@ RECURSIVE ApplyBatch(_, _)
 ApplyBatch(store, b) == IF b = <<>> THEN store
                         ELSE ApplyBatch([store EXCEPT ![Head(b).k] = Rec(Head(b).n, Head(b).sec, Head(b).crown, FALSE)], Tail(b))
 BatchViews(b) == [j \in 1..Len(b) |-> View(b[j].k, Rec(b[j].n, b[j].sec, b[j].crown, FALSE), FALSE)]
+\* outcomes of flushing the pending writes q of interface i over the store: [s: store afterwards, w: views written]
+RECURSIVE FlushOut(_, _, _)
+FlushOut(store, q, i) ==
+    IF q = <<>> THEN {[s |-> store, w |-> <<>>]}
+    ELSE LET e == Head(q)
+             drop == FlushOut(store, Tail(q), i)
+             take == {[s |-> x.s, w |-> <<View(e.k, e.r, FALSE)>> \o x.w] : x \in FlushOut([store EXCEPT ![e.k] = e.r], Tail(q), i)}
+         IN IF ~store[e.k].present \/ MayI(store[e.k], i) THEN drop \cup take ELSE drop
 BurstViews(o) == [j \in 1..o.cnt |-> View(o.k, Rec(1 + (j % 3), o.sec, o.crown, FALSE), FALSE)]
 
 \* ---------------------------------------------------------------- the reference semantics
@@ -210,6 +219,18 @@ Strict(st, o, loose) ==
         IF o.i # Full THEN DeniedOut(st, <<>>)
         ELSE {Written(st, ApplyBatch(st.store, o.batch), <<>>, OkRes, <<>>),
               Written(st, ApplyBatch(st.store, o.batch), BatchViews(o.batch), OkRes, <<>>)}
+    \* Put through an interface that has i's privileges and a delayed write cache (DelayCachedWrites): checked and
+    \* accepted now, written when that cache is flushed
+    [] o.op = "PutLater" ->
+        IF st.store[o.k].present /\ ~MayI(st.store[o.k], o.i) THEN DeniedOut(st, <<>>)
+        ELSE {Out(OkRes, [st EXCEPT !.pend = Append(@, [i |-> o.i, k |-> o.k, r |-> Rec(o.n, o.sec, o.crown, FALSE)])], Quiet(st), <<>>)}
+    \* the flush of that cache: every pending write is either stored or dropped (the library refuses the batch write of
+    \* an interface without all permissions) - but it is never stored over a record that the interface may not access
+    \* *now*; whether subscribers are told is left open, as for PutMany
+    [] o.op = "FlushLater" ->
+        LET mine == SelectSeq(st.pend, LAMBDA e : e.i = o.i)
+            st1 == [st EXCEPT !.pend = SelectSeq(st.pend, LAMBDA e : e.i # o.i)]
+        IN UNION {{Written(st1, x.s, <<>>, OkRes, <<>>), Written(st1, x.s, x.w, OkRes, <<>>)} : x \in FlushOut(st.store, mine, o.i)}
     [] o.op = "Burst" ->
         \* o.cnt Puts of the same key in a row, feeds not drained in between: the only way to fill a feed
         IF o.i # Full \/ \E h \in HSlots : st.hooks[h].active THEN {}
